@@ -324,6 +324,7 @@ func c06Run(c *core.Ctx, b core.Batch) {
 		c06Enum(c, p)
 	case "random":
 		c06Random(c, p)
+		c06ListenerConflicts(c, p)
 	case "hostile":
 		c06Hostile(c, p)
 	}
@@ -506,6 +507,20 @@ func c06Enum(c *core.Ctx, p c06Params) {
 
 var c06Tokens = []string{"a", "b", "c", "dd", "e1", "x-y", "$x", "$y", "$z", "$id", "*", "*", "A", "_"}
 
+// c06RandPatternRoot also yields the root resource (pattern "", only below a
+// non-empty Mux path), a lone full wildcard and a lone placeholder.
+func c06RandPatternRoot(r *rand.Rand, hasRoot bool) string {
+	switch k := r.Intn(24); {
+	case k == 0 && hasRoot:
+		return ""
+	case k == 1:
+		return ">"
+	case k == 2:
+		return []string{"$id", "*"}[r.Intn(2)]
+	}
+	return c06RandPattern(r)
+}
+
 func c06RandPattern(r *rand.Rand) string {
 	n := 1 + r.Intn(6)
 	var toks []string
@@ -569,7 +584,7 @@ func c06Random(c *core.Ctx, p c06Params) {
 		var routes []ref.Route
 		rootPath := []string{"", "", "svc", "a.b"}[r.Intn(4)]
 		for len(routes) < n {
-			pat := c06RandPattern(r)
+			pat := c06RandPatternRoot(r, rootPath != "")
 			if seen[ref.Canon(pat)] {
 				n--
 				continue
@@ -642,6 +657,93 @@ func c06Random(c *core.Ctx, p c06Params) {
 	}
 }
 
+// c06ListenerConflicts: a listener and a handler (or two listeners) on the same
+// pattern position with different placeholder names are a conflict and must be
+// rejected at registration, in either order and also across a mounted Mux;
+// with equal names they are accepted and the lookup reports both.
+func c06ListenerConflicts(c *core.Ctx, p c06Params) {
+	r := c.Rand
+	for i := 0; i < p.N/4+20; i++ {
+		var pat string
+		var toks []string
+		for {
+			pat = "lit." + c06RandPattern(r)
+			toks = ref.Tokens(pat)
+			has := false
+			for _, t := range toks {
+				if ref.ClassifyToken(t) == ref.TokTag {
+					has = true
+				}
+			}
+			if has {
+				break
+			}
+		}
+		// rename one tag / turn it into the anonymous placeholder
+		var tagIdx []int
+		for k, t := range toks {
+			if ref.ClassifyToken(t) == ref.TokTag {
+				tagIdx = append(tagIdx, k)
+			}
+		}
+		alt := append([]string{}, toks...)
+		k := tagIdx[r.Intn(len(tagIdx))]
+		// (a named against an anonymous placeholder is left out: whether that is a
+		// conflict for a listener is not specified)
+		how := "renamed"
+		alt[k] = "$zz"
+		other := strings.Join(alt, ".")
+		listener := func(*res.Event) {}
+		for variant := 0; variant < 6; variant++ {
+			second := other
+			if variant >= 4 {
+				second = pat // consistent names: accepted
+			}
+			arrangement := []string{"handler-then-listener", "listener-then-handler", "listener-then-listener", "mounted:handler-in-child-listener-through-parent", "handler-then-listener", "mounted:handler-in-child-listener-through-parent"}[variant]
+			m := res.NewMux("svc")
+			pn := try(func() {
+				switch variant {
+				case 0, 4:
+					m.Handle(pat, res.Call("m", func(res.CallRequest) {}))
+					m.AddListener(second, listener)
+				case 1:
+					m.AddListener(second, listener)
+					m.Handle(pat, res.Call("m", func(res.CallRequest) {}))
+				case 2:
+					m.AddListener(pat, listener)
+					m.AddListener(second, listener)
+				case 3, 5:
+					sub := res.NewMux("")
+					sub.Handle(strings.Join(toks[1:], "."), res.Call("m", func(res.CallRequest) {}))
+					m.Mount("lit", sub)
+					m.AddListener(second, listener)
+				}
+			})
+			c.Eval(1)
+			desc := map[string]interface{}{"first": pat, "second": second, "arrangement": arrangement}
+			if variant < 4 {
+				c.Distinct("lc/" + pat + "/" + second + "/" + arrangement)
+				if pn == nil {
+					c.Violation("C06/register-accepts-conflict:listener-"+how+":"+strings.SplitN(arrangement, ":", 2)[0], fmt.Sprintf("%s: patterns %q and %q name the placeholder at the same position differently but both registrations were accepted", arrangement, pat, second), desc)
+				} else {
+					c.Obs("listener_conflicts_rejected", 1)
+				}
+				continue
+			}
+			if pn != nil {
+				desc["panic"] = fmt.Sprint(pn)
+				c.Violation("C06/register-rejects:listener-same-names", fmt.Sprintf("%s: handler and listener on the same pattern %q were rejected: %v", arrangement, pat, pn), desc)
+				continue
+			}
+			name := "svc." + c17Instantiate(r, pat, false)
+			mt := m.GetHandler(name)
+			if _, ok := ref.Match("svc."+pat, name); ok && (mt == nil || len(mt.Listeners) != 1) {
+				c.Violation("C06/listeners:listener-same-names", fmt.Sprintf("%s: lookup of %q does not report the listener registered on %q", arrangement, name, pat), desc)
+			}
+		}
+	}
+}
+
 // c06Hostile: lookup never panics on any input string.
 func c06Hostile(c *core.Ctx, p c06Params) {
 	r := c.Rand
@@ -653,7 +755,7 @@ func c06Hostile(c *core.Ctx, p c06Params) {
 		var routes []ref.Route
 		rootPath := []string{"", "svc"}[r.Intn(2)]
 		for len(routes) < n {
-			pat := c06RandPattern(r)
+			pat := c06RandPatternRoot(r, rootPath != "")
 			if seen[ref.Canon(pat)] {
 				n--
 				continue
